@@ -250,6 +250,8 @@ def mkint(e, rng=None):
 
 
 def fresh_int(name, lo, hi):
+    if not (-(1 << (IW - 1)) <= lo <= hi < (1 << (IW - 1))):
+        raise ValueError("fresh_int(%r, %r, %r): range does not fit the %d-bit signed integers of the engine" % (name, lo, hi, IW))
     v = z3.BitVec(name, IW)
     core.assume(z3.And(v >= lo, v <= hi))
     return SymInt(v, (lo, hi))
